@@ -61,7 +61,7 @@ class LoopSoapClient:
 
 
 class Bench:
-    def __init__(self, mdib_file=MDIB_TWO, validate=True):
+    def __init__(self, mdib_file=MDIB_TWO, validate=True, role_providers=True):
         from sdc11073.consumer.consumerimpl import SdcConsumer
         from sdc11073.consumer.serviceclients.contextservice import ContextServiceClient
         from sdc11073.consumer.serviceclients.getservice import GetServiceClient
@@ -70,7 +70,12 @@ class Bench:
         from sdc11073.xml_types.addressing_types import EndpointReferenceType
         from tests import mockstuff
         self.wsd = mockstuff.MockWsDiscovery('127.0.0.1')
-        self.device = mockstuff.SomeDevice.from_mdib_file(self.wsd, None, mdib_file, validate=validate)
+        kw = {}
+        if not role_providers:
+            # the example role providers run worker threads that commit transactions on their own (alert self check)
+            from sdc11073.provider.providerimpl import RoleProviderComponents
+            kw['role_provider_components'] = RoleProviderComponents(role_provider_class=None, waveform_provider_class=None)
+        self.device = mockstuff.SomeDevice.from_mdib_file(self.wsd, None, mdib_file, validate=validate, **kw)
         self.mdib = self.device.mdib
         self.consumer = SdcConsumer('http://127.0.0.1:1/verif', SdcV1Definitions, ssl_context_container=None,
                                     validate=validate)
